@@ -183,8 +183,8 @@ def run(rep):
         "one producer output bonded to k >= 1 consumer inputs; agents are busy (any non-IO code, any duration) or at an IO instruction of this bond",
         "relative speeds are varied through instruction padding and through simbox per-opcode delays (one certain value per opcode; "
         "random distributions are not used so that runs replay)",
-        "sicv3 (also anchored) is not modelled; liveness (no deadlock under fair schedules) is checked on the implementation "
-        "(a net that stops transferring is reported) but not proved",
+        "sicv3 (also anchored) is not modelled; liveness (no deadlock under every fair schedule) is proved for both protocol "
+        "models (no_deadlock_isa / no_deadlock_rtl) and additionally observed on the implementation (a net that stops transferring is reported)",
     ]
     tot = {"with_delays": 0, "cases": 0, "ticks": 0, "transfers": 0, "captures": 0, "back_to_back_prod": 0, "back_to_back_cons": 0, "vt_ok": 0, "rt_ok": 0}
     fan, distinct, fails, samples = {}, set(), [], []
